@@ -200,6 +200,44 @@ def two_releases(b1: int, b2: int, backend: int) -> bool:
     return reused == fresh
 
 
+def results_stable(na: int, nb: int, has_mc: bool, backend: int) -> bool:
+    """
+    requires: 1 <= na <= 2 and 1 <= nb <= 2 and 0 <= backend <= 1
+    """
+    # what was handed back for module A (summary, symbol table, context) is still the same after the SAME generator objects
+    # processed module B: compile() reads all summaries only after the last module was generated
+    tok.install_jinja_capture()
+    cls = (_jsondoc.JsonCodeGen, tok._pysnmp.PySnmpCodeGen)[backend]
+
+    def mod(name, root, n):
+        decls = [m.module_identity(name.lower() + 'Id', m.oid('iso', root))]
+        for i in range(n):
+            decls.append(m.value_decl('%sNode%d' % (name.lower(), i), m.oid('iso', root, i + 1)))
+        if has_mc:
+            decls.append(m.module_compliance(name.lower() + 'Mc', m.oid('iso', root, 9)))
+        return tok.parse_tokens(m.module(name, [], decls))[0]
+    ta, tb = mod('A-MIB', 3, na), mod('B-MIB', 4, nb)
+    sg, cg = _symtable.SymtableCodeGen(), cls()
+    symtab = {}
+    try:
+        mia, sta = sg.genCode(ta, symtab)
+        symtab[mia.name] = sta
+        snap_s = (_info(mia), copy.deepcopy(sta))
+        mib, stb = sg.genCode(tb, symtab)
+        symtab[mib.name] = stb
+        if (_info(mia), sta) != snap_s:
+            return False
+        ma, ctxa = cg.genCode(ta, symtab)
+        snap_c = (_info(ma), sorted(ma.oids), list(ma.compliance), copy.deepcopy(ctxa))
+        mb, ctxb = cg.genCode(tb, symtab)
+    except error.PySmiError:
+        return False
+    if (_info(ma), sorted(ma.oids), list(ma.compliance), ctxa) != snap_c:
+        return False
+    # and the two summaries are really different objects with different contents
+    return sorted(ma.oids) != sorted(mb.oids) and ma.identity != mb.identity
+
+
 class NondetSet(set):
     """a set whose iteration order is decided by the harness (models an arbitrary hash seed)"""
     rot = 0
@@ -282,6 +320,9 @@ def conditions(prop, tier):
         out.append(dict(name='C12.two-releases.%s' % ('pysnmp' if be else 'json'), fn='two_releases', fixed=dict(backend=be), timeout=t,
                         bounds='one symbol-table builder and one code generator compile two releases of the same two module names in which the same '
                                'TC name stands for any of 4 base types (with a matching DEFVAL): every ordered pair; compared with fresh objects'))
+        out.append(dict(name='C12.results-stable.%s' % ('pysnmp' if be else 'json'), fn='results_stable', fixed=dict(backend=be), timeout=t,
+                        bounds='two modules (1-2 nodes each, MODULE-IDENTITY, optional MODULE-COMPLIANCE) through ONE symbol-table builder and ONE '
+                               'code generator: the summary / symbol table / context handed back for the first is unchanged after the second'))
         out.append(dict(name='C12.repeat.%s' % ('pysnmp' if be else 'json'), fn='repeat', fixed=dict(backend=be), timeout=t,
                         bounds='the same generator objects process the same module twice, on the same tree object or on a copy'))
         out.append(dict(name='C12.hash-seed.%s' % ('pysnmp' if be else 'json'), fn='hash_seed', fixed=dict(backend=be), timeout=t,
@@ -295,4 +336,5 @@ def selftests(prop):
             ('codegen_step', dict(has_mi=True, nrev=1, dirty_rev=False, dirty_ident=True, dirty_oids=True, dirty_seen=True, dirty_imports=False,
                                   fakeidx=1000, gen_texts_before=True, backend=0)),
             ('repeat', dict(has_mi=True, nrev=1, share_tree=True, backend=0)), ('two_releases', dict(b1=1, b2=0, backend=0)),
-            ('hash_seed', dict(rot=0, rev=False, nimp=3, backend=0))]
+            ('hash_seed', dict(rot=0, rev=False, nimp=3, backend=0)), ('results_stable', dict(na=2, nb=1, has_mc=True, backend=0)),
+            ('results_stable', dict(na=1, nb=2, has_mc=False, backend=1))]
